@@ -154,8 +154,8 @@ func schedulerProbe(pc *probe) {
 		return ch
 	}
 	sched := scheduler.NewForT(pc.t(), clock, immediate, noRegs{}, m, nil, false)
-	df := &dutyFan{fan: &fan{pc: pc, name: "scheduler fan-out", mutator: pc.rng.Intn(2), concurrent: true}, byDuty: map[core.Duty][]*delivery{}}
-	for s := 0; s < 2; s++ {
+	df := &dutyFan{fan: &fan{pc: pc, name: "scheduler fan-out", mutator: pc.rng.Intn(pc.nsubs), concurrent: true}, byDuty: map[core.Duty][]*delivery{}}
+	for s := 0; s < pc.nsubs; s++ {
 		s := s
 		sched.SubscribeDuties(func(_ context.Context, duty core.Duty, set core.DutyDefinitionSet) error {
 			df.recv(s, duty, set)
@@ -204,8 +204,8 @@ func schedulerProbe(pc *probe) {
 	checkSlot := func(slot uint64, when string) {
 		for _, duty := range slotDuties(slot) {
 			dels := df.of(duty)
-			if len(dels) != 2 {
-				pc.inconclusive("duty %v: %d deliveries, want 2", duty, len(dels))
+			if len(dels) != pc.nsubs {
+				pc.inconclusive("duty %v: %d deliveries, want %d", duty, len(dels), pc.nsubs)
 				continue
 			}
 			want := fp(expected[duty])
@@ -217,7 +217,7 @@ func schedulerProbe(pc *probe) {
 	}
 
 	// slot 0 fan-out (two subscribers, one of them scribbles what it gets)
-	if !waitDeliveries(8, "slot 0") {
+	if !waitDeliveries(4*pc.nsubs, "slot 0") {
 		return
 	}
 	checkSlot(0, "after slot 0 was triggered")
@@ -308,7 +308,7 @@ func schedulerProbe(pc *probe) {
 	pc.r.Count("concurrent_probes", 1)
 	pc.r.Count("concurrent_goroutines", int64(g))
 	pc.r.Count("reads", int64(len(results)))
-	if !waitDeliveries(16, "slot 1") {
+	if !waitDeliveries(8*pc.nsubs, "slot 1") {
 		return
 	}
 	checkSlot(1, "after slot 1 was triggered")
